@@ -14,11 +14,11 @@ import (
 func init() {
 	Register(&Rule{
 		ID: "C27", Section: "5 C27",
-		Technique: "witness-path analysis of chunkWriter.writeHeader (every path to the header write passes a framing witness: declared length, chunking, bodiless status/HEAD, or close-after-reply), coupling of the chunking flag with the Transfer-Encoding/Content-Length header edits, guard census, who-may-write census of chunking/closeAfterReply, path rules on chunkWriter.Write/close and response.write/finishRequest",
+		Technique: "witness-path analysis of chunkWriter.writeHeader (every path to the header write passes a framing witness: declared length, chunking, bodiless status/HEAD, or close-after-reply), coupling of the chunking flag with the Transfer-Encoding/Content-Length header edits, guard census, who-may-write census of chunking/closeAfterReply, path rules on chunkWriter.Write/close and response.write/finishRequest, key agreement and input coverage of the statusLine memo map",
 		Meta: core.Meta{
 			Level:       "other",
-			Explanation: "Decides the framing decision's structure, not the bytes: (a) chunkWriter.chunking is written only by writeHeader, only with true, always together with setHeader.transferEncoding = \"chunked\" (and vice versa), only for HTTP/1.1+, non-HEAD, status not 304/204 and no surviving declared Content-Length, and every path from there to the header write deletes Content-Length; (b) every path of writeHeader that reaches the header write passes one of: declared Content-Length (contentLength != -1 still true), chunking := true, HEAD, 304, 204, closeAfterReply := true - and no path that does not chunk (other than HEAD/304) reaches the header write with a handler-supplied Transfer-Encoding still in place; a synthesised Content-Length is stored together with response.contentLength and before the hasCL test; Content-Length is deleted only under chunking, 304, or where the declared-length flag is cleared; the delHeader closure really deletes or excludes; (c) closeAfterReply is written only by writeHeader, requestTooLarge and finishRequest, reset to false only under the HTTP/1.0 keep-alive + Content-Length + Connection: keep-alive test and never after it was set; finishRequest sets it when fewer bytes than declared were written; conn.serve cannot start reading the next request while it is set; (d) chunkWriter.Write emits the chunk-size line before and CRLF after the data exactly when chunking, writes nothing for HEAD; chunkWriter.close emits the last-chunk exactly when chunking; response.write refuses bodies for 304 and beyond the declared length; finishRequest always flushes and closes the chunk writer. Not covered: the bytes on the wire, body equality with the backend body, suppression of bodies for 1xx/204 in Write, header values, trailers, what the reverse proxy copies into the response header.",
-			RuleText:    "obligations = each writer of chunking/closeAfterReply/transferEncoding, each required guard of the chunking store, one witness-path query per framing clause, each Content-Length deletion, each data-write site of chunkWriter.Write/response.write, the exits of chunkWriter.close/finishRequest/delHeader",
+			Explanation: "Decides the framing decision's structure, not the bytes: (a) chunkWriter.chunking is written only by writeHeader, only with true, always together with setHeader.transferEncoding = \"chunked\" (and vice versa), only for HTTP/1.1+, non-HEAD, status not 304/204 and no surviving declared Content-Length, and every path from there to the header write deletes Content-Length; (b) every path of writeHeader that reaches the header write passes one of: declared Content-Length (contentLength != -1 still true), chunking := true, HEAD, 304, 204, closeAfterReply := true - and no path that does not chunk (other than HEAD/304) reaches the header write with a handler-supplied Transfer-Encoding still in place; a synthesised Content-Length is stored together with response.contentLength and before the hasCL test; Content-Length is deleted only under chunking, 304, or where the declared-length flag is cleared; the delHeader closure really deletes or excludes; (c) closeAfterReply is written only by writeHeader, requestTooLarge and finishRequest, reset to false only under the HTTP/1.0 keep-alive + Content-Length + Connection: keep-alive test and never after it was set; finishRequest sets it when fewer bytes than declared were written; conn.serve cannot start reading the next request while it is set; (d) chunkWriter.Write emits the chunk-size line before and CRLF after the data exactly when chunking, writes nothing for HEAD; chunkWriter.close emits the last-chunk exactly when chunking; response.write refuses bodies for 304 and beyond the declared length; finishRequest always flushes and closes the chunk writer. (e) the Status-Line memo (statusLines): a get-or-compute function of bfe_server fills a package-level map only under the key it looked up, and every parameter the cached value depends on (request version, code) is an input of that key. Not covered: the bytes on the wire, the text of the status line, body equality with the backend body, suppression of bodies for 1xx/204 in Write, header values, trailers, what the reverse proxy copies into the response header.",
+			RuleText:    "obligations = each writer of chunking/closeAfterReply/transferEncoding, each required guard of the chunking store, one witness-path query per framing clause, each Content-Length deletion, each data-write site of chunkWriter.Write/response.write, the exits of chunkWriter.close/finishRequest/delHeader, each fill of a looked-up package-level memo map (key identity, key covers the value's inputs)",
 			Assumptions: []string{"response.contentLength != -1 means a valid Content-Length header is present (established by response.WriteHeader, checked: it is the only other writer)", "bufio never calls chunkWriter.Write with an empty slice"},
 		},
 		Run: runC27,
@@ -39,6 +39,9 @@ func init() {
 			{Name: "delheader-inverted-lookup", File: "bfe_server/chunk_writer.go", Old: "		if _, ok := header[key]; !ok {\n			return\n		}", New: "		if _, ok := header[key]; ok {\n			return\n		}", Expect: "delheader-closure"},
 			{Name: "foreign-close-writer", File: "bfe_server/response.go", Old: "func (w *response) Flush() error {\n	if !w.wroteHeader {", New: "func (w *response) Flush() error {\n	w.closeAfterReply = false\n	if !w.wroteHeader {", Expect: "close-writers"},
 			{Name: "serve-ignores-close-flag", File: "bfe_server/http_conn.go", Old: "		if !isKeepAlive || w.closeAfterReply {\n			if w.requestBodyLimitHit {", New: "		if !isKeepAlive {\n			if w.requestBodyLimitHit {", Expect: "serve-honours-close"},
+			{Name: "status-line-looked-up-by-code", File: "bfe_server/chunk_writer.go", Old: "	line, ok := statusLines[key]\n", New: "	line, ok := statusLines[code]\n", Expect: "cache-key|"},
+			{Name: "status-line-key-ignores-version", File: "bfe_server/chunk_writer.go", Old: "	if !proto11 {\n		key = -key\n	}\n", New: "", Expect: "cache-key|"},
+			{Name: "silent-status-line-fill-helper", Silent: true, File: "bfe_server/chunk_writer.go", Old: "		statusLines[key] = line\n	}\n	return line\n}\n", New: "		slot := key\n		storeStatusLine(slot, line)\n	}\n	return line\n}\n\nfunc storeStatusLine(k int, s string) {\n	statusLines[k] = s\n}\n"},
 			{Name: "silent-reorder-and-log", Silent: true, File: "bfe_server/chunk_writer.go", Old: "		cw.chunking = true\n		setHeader.transferEncoding = \"chunked\"", New: "		setHeader.transferEncoding = \"chunked\"\n		log.Logger.Debug(\"chunked reply\")\n		cw.chunking = true"},
 		},
 	})
@@ -127,6 +130,7 @@ func h1bServeHonoursClose(c *core.Ctx, e *h1bSrv, rule string) {
 
 func runC27(c *core.Ctx) {
 	const srv = "bfe_server"
+	c27StatusLineCache(c)
 	e := h1bResolveSrv(c)
 	wh := e.writeHeader
 	all := c.P.SrcFuncs("")
@@ -608,6 +612,106 @@ func runC27(c *core.Ctx) {
 		}
 		c.Min("write-limits", 4)
 	}
+}
+
+// c27StatusLineCache: the Status-Line strings are memoised in a package-level
+// map. For every function of bfe_server that both looks up and fills the same
+// package-level map (get-or-compute), (1) the key of each fill is the very
+// value that was looked up, and (2) every parameter the cached value depends
+// on (through data flow or through the branches that select it) is also an
+// input of the key - otherwise an entry computed for one request (HTTP/1.0)
+// is served to requests it does not fit (HTTP/1.1).
+func c27StatusLineCache(c *core.Ctx) {
+	const srv = "bfe_server"
+	globalOf := func(m ssa.Value) *ssa.Global {
+		u, ok := core.StripConv(m).(*ssa.UnOp)
+		if !ok || u.Op != token.MUL {
+			return nil
+		}
+		g, _ := u.X.(*ssa.Global)
+		return g
+	}
+	sl := h1bFunc(c, srv, "statusLine")
+	n := map[string]int{}
+	sawStatusLine := false
+	for _, fn := range c.P.SrcFuncs(srv) {
+		lookups := map[*ssa.Global][]*ssa.Lookup{}
+		type fill struct {
+			g          *ssa.Global
+			Key, Value ssa.Value
+			pos        token.Pos
+		}
+		var fills []fill
+		paramIdx := func(f *ssa.Function, v ssa.Value) int {
+			for i, p := range f.Params {
+				if ssa.Value(p) == core.StripConv(v) {
+					return i
+				}
+			}
+			return -1
+		}
+		core.Instrs(fn, func(in ssa.Instruction) {
+			switch x := in.(type) {
+			case *ssa.Lookup:
+				if g := globalOf(x.X); g != nil {
+					lookups[g] = append(lookups[g], x)
+				}
+			case *ssa.MapUpdate:
+				if g := globalOf(x.Map); g != nil {
+					fills = append(fills, fill{g, x.Key, x.Value, x.Pos()})
+				}
+			case *ssa.Call:
+				// a helper that stores its parameters into the map (one level)
+				sc := x.Call.StaticCallee()
+				if sc == nil || sc.Blocks == nil || sc == fn || core.FuncPkgRel(sc) != srv {
+					return
+				}
+				core.Instrs(sc, func(in2 ssa.Instruction) {
+					if mu, ok := in2.(*ssa.MapUpdate); ok {
+						ki, vi := paramIdx(sc, mu.Key), paramIdx(sc, mu.Value)
+						if g := globalOf(mu.Map); g != nil && ki >= 0 && vi >= 0 && ki < len(x.Call.Args) && vi < len(x.Call.Args) {
+							fills = append(fills, fill{g, x.Call.Args[ki], x.Call.Args[vi], x.Pos()})
+						}
+					}
+				})
+			}
+		})
+		for _, mu := range fills {
+			g := mu.g
+			if len(lookups[g]) == 0 {
+				continue
+			}
+			if fn == sl {
+				sawStatusLine = true
+			}
+			c.Analysed(core.FuncKey(fn))
+			key := h1aResolve(core.StripConv(mu.Key))
+			same := false
+			var looked []string
+			for _, lk := range lookups[g] {
+				looked = append(looked, core.Render(lk.Index))
+				if h1aResolve(core.StripConv(lk.Index)) == key {
+					same = true
+				}
+			}
+			id := h1bOrd(core.FuncKey(fn)+":"+g.Name(), n)
+			c.Check("cache-key", id+":same-key", mu.pos, same,
+				"the memo map "+g.Name()+" is filled under the key "+core.Render(mu.Key)+" but consulted under "+fmt.Sprint(looked)+": the entry computed for one lookup key is stored in (and later served from) a different slot - for statusLine an HTTP/1.0 status line lands in the HTTP/1.1 slot and HTTP/1.1 replies (chunked, keep-alive) go out with an HTTP/1.0 status line")
+			kd, vd := sh1ParamDeps(mu.Key), sh1ParamDeps(mu.Value)
+			var missing []string
+			for p := range vd {
+				if !kd[p] {
+					missing = append(missing, p.Name())
+				}
+			}
+			c.Check("cache-key", id+":covers-value", mu.pos, len(missing) == 0,
+				fmt.Sprintf("the value cached in %s depends on the parameters %s but its key only on %s (not on %v): entries computed for different inputs share a slot, so a reply can get a status line built for another protocol version", g.Name(), sh1ParamNames(vd), sh1ParamNames(kd), missing))
+		}
+	}
+	if sl != nil {
+		c.Check("cache-key", "statusLine:memoised", sl.Pos(), sawStatusLine, "statusLine no longer consults and fills a package-level memo map in a form the rule follows")
+	}
+	c.Min("cache-key", 3)
 }
 
 // h1bValueOf returns the instruction as a value (nil if it is not one).
